@@ -6,7 +6,7 @@ from props import PROPS
 from manifest_texts import TEXTS, NOT_APPLICABLE, HOOK_COMMITS
 
 checks = []
-for pid in sorted(PROPS):
+for pid in sorted(p for p in PROPS if p in TEXTS):
     t = TEXTS[pid]
     checks.append(dict(
         property_id=pid,
@@ -25,12 +25,12 @@ m = dict(
                enable="cmake/CMakeLists.txt compiles /repo/src with -DGSTLEARN_VERIF (sanitised static library in /verif/_build)",
                baseline_off_cmd="bash tools/baseline.sh",
                source_commits=HOOK_COMMITS, add_only=True),
-    engines=[dict(name="rapidcheck", path="/verif/harness", serves_properties=sorted(p for p in PROPS if TEXTS[p].get("engine", "rapidcheck") == "rapidcheck"),
+    engines=[dict(name="rapidcheck", path="/verif/harness", serves_properties=sorted(p for p in TEXTS if TEXTS[p].get("engine", "rapidcheck") == "rapidcheck"),
                   kind_free_text="rapidcheck generators + explicit oracles, one executable per property, driven by check.py"),
-             dict(name="libFuzzer", path="/verif/harness/fz_*.cpp", serves_properties=sorted(p for p in PROPS if "libFuzzer" in TEXTS[p].get("engine", "")),
+             dict(name="libFuzzer", path="/verif/harness/fz_*.cpp", serves_properties=sorted(p for p in TEXTS if "libFuzzer" in TEXTS[p].get("engine", "")),
                   kind_free_text="coverage-guided fuzzing of the readers with ASan/UBSan and in-target semantic oracle")],
     checks=checks,
     notes="All checks rebuild /repo's working tree incrementally (ninja) before running. See DESIGN.md.",
-    not_applicable=[dict(property_id=k, reason=v) for k, v in sorted(NOT_APPLICABLE.items()) if k not in PROPS])
+    not_applicable=[dict(property_id=k, reason=v) for k, v in sorted(NOT_APPLICABLE.items()) if k not in TEXTS])
 json.dump(m, open(os.path.join(os.path.dirname(os.path.dirname(os.path.abspath(__file__))), "MANIFEST.json"), "w"), indent=1)
 print("MANIFEST.json: %d checks, %d not_applicable" % (len(checks), len(m["not_applicable"])))
